@@ -537,7 +537,7 @@ func fieldName(fa *ssa.FieldAddr) string {
 	if !ok {
 		return "?"
 	}
-	return st.Field(fa.Field).Name()
+	return canonFieldName(st.Field(fa.Field))
 }
 
 func fieldNameV(fv *ssa.Field) string {
@@ -545,7 +545,7 @@ func fieldNameV(fv *ssa.Field) string {
 	if !ok {
 		return "?"
 	}
-	return st.Field(fv.Field).Name()
+	return canonFieldName(st.Field(fv.Field))
 }
 
 func validPos(ps ...token.Pos) token.Pos {
